@@ -103,6 +103,86 @@ def chunks(text, order, backend):
     return out
 
 
+def derive_description(rng):
+    """what the analyzer REWRITES before generation: groups (inlined), optional fields (flags),
+    forward references (declarations sorted), group constraints (fixed fields)"""
+    P = pdlast
+    decls = [
+        P.packet("Kid", [P.scalar("z", 8 * rng.randint(1, 3)), P.scalar("kc", 1), P.reserved(7),
+                         P.scalar("ko", 16, cond=P.constraint("kc", 1))], parent_id="Base", constraints=[P.constraint("k", 2)]),
+        P.packet("Kid2", [P.group_f("Trl", [P.constraint("tk", value=7)])], parent_id="Base", constraints=[P.constraint("k", 3)]),
+        P.packet("Base", [P.scalar("k", 8), P.group_f("Hdr", [P.constraint("hk", tag_id="A")]),
+                          P.scalar("c", 1), P.scalar("d", 1), P.reserved(6),
+                          P.scalar("a", 16, cond=P.constraint("c", 1)), P.typedef("b", "St", cond=P.constraint("d", 0)),
+                          P.typedef("s", "St"), P.size_f("_payload_", 8), P.payload()]),
+        P.group("Hdr", [P.scalar("hx", 8), P.typedef("hk", "En")]),
+        P.group("Trl", [P.scalar("tx", 8), P.scalar("tk", 8)]),
+        P.struct("St", [P.scalar("n", 8), P.count_f("v", 8), P.array("v", width=16)]),
+        P.enum("En", 8, [P.tag_v("A", 1), P.tag_v("B", 2), P.tag_o("Other")]),
+        P.packet("Opt", [P.scalar("c", 1), P.reserved(7), P.scalar("a", 8, cond=P.constraint("c", 1)),
+                         P.scalar("b", 16, cond=P.constraint("c", 0)), P.typedef("e", "En")]),
+    ]
+    return P.file(rng.choice(["little_endian", "big_endian"]), decls)
+
+
+def derive_check(tier, seed, counts, violations, samples):
+    """pdl_derive's attribute macros against the command-line tool: the SAME description
+    compiled both ways into one crate, the same requests sent to both modules"""
+    import rust_harness
+    rng = random.Random(seed)
+    pdlc = common.build_pdlc()
+    text = pdlast.to_pdl(derive_description(rng))
+    mods = [{"name": "dvcli", "pdl": text, "exclude": []},
+            {"name": "dvmac", "pdl": text, "exclude": [], "via": "derive"},
+            {"name": "dvinl", "pdl": text, "exclude": [], "via": "derive_inline"}]
+    with common.locked("cargo-harness-derive"):
+        binary = rust_harness.build(mods, common.CACHE / "rust-harness-derive", "dev", pdlc,
+                                    common.CACHE / "target-harness-derive")
+    rep = json.loads((common.CACHE / "rust-harness-derive" / "build_report.json").read_text())
+    for kind in ("failed_modules", "uncompilable_modules"):
+        for name, why in (rep.get(kind) or {}).items():
+            violations.append({"kind": "derive-module-does-not-build", "module": name, "text": text, "observed": str(why)[:1500]})
+    if rep.get("failed_modules") or rep.get("uncompilable_modules"):
+        return
+    p = common.sh([str(pdlc), "--output-format", "json", "/dev/stdin"], input=text.encode(), check=False)
+    ast = pdlast.strip_loc(json.loads(p.stdout))
+    env, values, vr = rustcodec.plan_module("dvcli", ast, tier, seed, None)
+    reqs = []
+    for i, (ty, v, cls) in enumerate(values):
+        reqs.append((f"e{i}", ty, "encode", json.dumps(v)))
+    for d in env.codec_types():
+        reqs.append((f"df{d['id']}", d["id"], "default", ""))
+    first = rust_harness.run(binary, [(k, "dvcli", ty, op, arg) for k, ty, op, arg in reqs], timeout_s=120)
+    hexes = []
+    for i, (ty, v, cls) in enumerate(values):
+        st, pl = first.get(f"e{i}", ("missing", None))
+        hx = ((pl or {}).get("vec") or {}).get("ok") if isinstance(pl, dict) else None
+        if hx is not None:
+            for m in [hx] + vr.sample(gen.mutate_bytes(hx, vr, 2), 6)[:6]:
+                hexes.append((ty, m))
+                for a_ in env.parents(env.decls[ty]):
+                    hexes.append((a_["id"], m))
+    hexes = list(dict.fromkeys(hexes))
+    for j, (ty, hx) in enumerate(hexes):
+        reqs.append((f"d{j}", ty, "decode", hx))
+        if env.children(env.decls[ty]):
+            reqs.append((f"s{j}", ty, "specialize", hx))
+    out = {m: rust_harness.run(binary, [(k, m, ty, op, arg) for k, ty, op, arg in reqs], timeout_s=180)
+           for m in ("dvcli", "dvmac", "dvinl")}
+    for k, ty, op, arg in reqs:
+        a = out["dvcli"].get(k)
+        counts["evaluations"] += 1
+        for m in ("dvmac", "dvinl"):
+            b = out[m].get(k)
+            if a != b:
+                violations.append({"kind": "derive-macro-behaves-differently-from-pdlc", "macro": "pdl" if m == "dvmac" else "pdl_inline",
+                                   "type": ty, "op": op, "arg": arg[:400], "text": text,
+                                   "observed": {"pdlc": a, "macro": b}})
+            else:
+                counts["nontrivial"] += 1
+    samples.append({"kind": "derive", "requests": len(reqs), "types": [d["id"] for d in env.codec_types()]})
+
+
 def run(tier, seed):
     binary = langs.drv_binary()
     pdlc = common.build_pdlc()
@@ -198,11 +278,13 @@ def run(tier, seed):
                         counts["nontrivial"] += 1
         if len(samples) < 4:
             samples.append({"name": n, "leaves_excluded": leaves[:4]})
+    # ---- 4. the attribute macros of pdl_derive vs the command-line tool
+    derive_check(tier, seed, counts, violations, samples)
     cov = {"evaluations": int(counts["evaluations"]), "distinct_nontrivial": int(counts["nontrivial"]),
-           "rule": "descriptions with many children / shuffled constraint lists / many declarations: generate twice in-process for rust, python, cxx, json, java; pdlc run in 6 (16 thorough) separate processes per backend and compared byte for byte with each other and with the library call; for each leaf declaration, --exclude-declaration output must be the full output minus one contiguous block",
+           "rule": "descriptions with many children / shuffled constraint lists / many declarations: generate twice in-process for rust, python, cxx, json, java; pdlc run in 6 (16 thorough) separate processes per backend and compared byte for byte with each other and with the library call; for each leaf declaration, --exclude-declaration output must be the full output minus one contiguous block; one description compiled through #[pdl(file)], #[pdl_inline(text)] and pdlc into one crate: encode / default / decode / specialize replies must be identical",
            "samples": samples, "distribution": {k: int(v) for k, v in counts.items()}, "disagreements_checked": len(violations)}
     return {"coverage": cov, "violations": violations[:40], "known": [],
-            "assumptions": ["the pdl_derive proc-macro path is not executed by this check (it calls the same parser, analyzer and rust::generate_tokens; compiling a crate per description is not affordable per run)"]}
+            "assumptions": ["the pdl_derive macros are exercised on ONE description per run (groups, group constraints, optional fields, forward references, inheritance): compiling a crate per description is not affordable"]}
 
 
 def replay(path):
